@@ -1,4 +1,5 @@
-from . import props_rules
+from . import props_rules, props_parse
 
 CHECKS = {}
 CHECKS.update(props_rules.CHECKS)
+CHECKS.update(props_parse.CHECKS)
